@@ -188,6 +188,27 @@ def check_copy_in(ctx):
                        U(node), 'the registry is (re)started empty' if ok
                        else 'the registry of defaults is rebound to '
                        'something other than an empty dict')
+            elif isinstance(node, ast.Call) and method_call(
+                    node, 'setdefault') and len(node.args) == 2 and U(
+                        method_call(node)[0]) == SOURCE:
+                # store-unless-present: what may be stored is a deep copy
+                v = node.args[1]
+                if isinstance(v, ast.Name):
+                    defs = [a.value for a in walk_no_nested(m.node)
+                            if isinstance(a, ast.Assign) and len(
+                                a.targets) == 1 and U(a.targets[0]) == v.id]
+                    v = defs[0] if len(defs) == 1 else v
+                ok = is_copy(prog, m.module, v) and len(v.args) == 1 \
+                    and isinstance(v.args[0], ast.Name) and \
+                    v.args[0].id in m.params
+                n += 1
+                ctx.ob('C12.COPY-IN', ok, ctx.where(m.module, node), m.qual,
+                       U(node)[:100],
+                       'a registered default is stored as a deep copy of '
+                       'what the service passed in' if ok else
+                       'a default enters the registry without being '
+                       'deep-copied (shallow copy or the caller\'s own '
+                       'object)')
             elif not (e.kind == 'substore' and e.path == SOURCE):
                 n += 1
                 ctx.ob('C12.COPY-IN', False, ctx.where(m.module, node),
